@@ -168,6 +168,19 @@ def multi_family(rng, sv, n, k):
     return fams
 
 
+_PER_MECH = {}
+
+
+def _viol(ctx, monitor, message, case=None, mech=None, observed=None, expected=None):
+    """At most 3 witnesses per mechanism and shard (the bus keeps 40 per shard): further ones are only counted."""
+    n = _PER_MECH.get(mech, 0)
+    _PER_MECH[mech] = n + 1
+    if n < 3:
+        ctx.violation(monitor, message, case=case, mech=mech, observed=observed, expected=expected)
+    else:
+        ctx.count(f"more_witnesses[{mech}]")
+
+
 def run(ctx):  # noqa: C901
     import warnings
 
@@ -228,7 +241,7 @@ def run(ctx):  # noqa: C901
             if fam.startswith("walk-") and err < 1e-1 and U.shape[0] == 4:
                 # mechanism: numerical CNOT-count classification snaps a unitary that is close to (not in) a lower class
                 mech = f"boundary-loss:two_qubit:cnots={(info_extra or {}).get('n_cnots', sum(1 for o in ops_ if len(o.wires) == 2))}"
-            ctx.violation("synth.matrix", f"{entry} on a {fam} unitary: emitted circuit differs from U by {err:.3e} in Frobenius norm "
+            _viol(ctx, "synth.matrix", f"{entry} on a {fam} unitary: emitted circuit differs from U by {err:.3e} in Frobenius norm "
                                           f"(> {tol:.1e}; {'exact' if exact else 'up to phase'}; modulo phase {errp:.3e})",
                           case=info, mech=mech, observed={"err": err, "err_mod_phase": errp})
         return err
@@ -255,13 +268,13 @@ def run(ctx):  # noqa: C901
                     ops_ = qp.ops.one_qubit_decomposition(U, w, rotations=rot, return_global_phase=gp)
                 except Exception as e:  # noqa: BLE001
                     ctx.ev("synth.matrix")
-                    ctx.violation("synth.matrix", f"one_qubit_decomposition[{rot}] raised {type(e).__name__}: {e} on a {fam} unitary",
+                    _viol(ctx, "synth.matrix", f"one_qubit_decomposition[{rot}] raised {type(e).__name__}: {e} on a {fam} unitary",
                                   case={"U": U, "family": fam}, mech=f"raise:one_qubit[{rot}]:{fam.split('-1e')[0]}")
                     continue
                 allowed = {"RX", "RY", "RZ", "Rot", "GlobalPhase"}
                 bad = [type(o).__name__ for o in ops_ if type(o).__name__ not in allowed]
                 if bad:
-                    ctx.violation("synth.matrix", f"one_qubit_decomposition[{rot}] emitted undocumented gates {bad}", case={"U": U},
+                    _viol(ctx, "synth.matrix", f"one_qubit_decomposition[{rot}] emitted undocumented gates {bad}", case={"U": U},
                                   mech=f"gateset:one_qubit[{rot}]")
                 judge(f"one_qubit[{rot}{',gp' if gp else ''}]", fam, U, list(ops_), [w], exact=gp)
         # QubitUnitary rules on one wire
@@ -279,7 +292,7 @@ def run(ctx):  # noqa: C901
             ops_ = list(qp.ops.two_qubit_decomposition(U, wires))
         except Exception as e:  # noqa: BLE001
             ctx.ev("synth.matrix")
-            ctx.violation("synth.matrix", f"two_qubit_decomposition raised {type(e).__name__}: {e} on a {fam} unitary",
+            _viol(ctx, "synth.matrix", f"two_qubit_decomposition raised {type(e).__name__}: {e} on a {fam} unitary",
                           case={"U": U, "family": fam}, mech=f"raise:two_qubit:{fam.split('-1e')[0]}")
             continue
         ncx = sum(1 for o in ops_ if len(o.wires) == 2)
@@ -287,7 +300,7 @@ def run(ctx):  # noqa: C901
         ctx.count(f"two_qubit_cnots={ncx}")
         bad = [type(o).__name__ for o in ops_ if (len(o.wires) == 2 and type(o).__name__ != "CNOT") or len(o.wires) > 2]
         if ncx > 3 or bad:
-            ctx.violation("synth.cnots", f"two_qubit_decomposition emitted {ncx} two-qubit gates ({bad}) on a {fam} unitary",
+            _viol(ctx, "synth.cnots", f"two_qubit_decomposition emitted {ncx} two-qubit gates ({bad}) on a {fam} unitary",
                           case={"U": U, "family": fam, "ops": [repr(o)[:60] for o in ops_]}, mech=f"cnots:two_qubit:{fam.split('-1e')[0]}")
         judge("two_qubit", fam, U, ops_, wires, exact=True, info_extra={"n_cnots": ncx})
         _rules(ctx, qp, CC, U, wires, fam, judge)
@@ -305,7 +318,7 @@ def run(ctx):  # noqa: C901
                 ops_ = list(qp.ops.multi_qubit_decomposition(U, wires))
             except Exception as e:  # noqa: BLE001
                 ctx.ev("synth.matrix")
-                ctx.violation("synth.matrix", f"multi_qubit_decomposition raised {type(e).__name__}: {e} on a {n}-qubit {fam} unitary",
+                _viol(ctx, "synth.matrix", f"multi_qubit_decomposition raised {type(e).__name__}: {e} on a {n}-qubit {fam} unitary",
                               case={"U": U, "family": fam}, mech=f"raise:multi_qubit:{fam}")
                 continue
             judge(f"multi_qubit[{n}]", fam, U, ops_, wires, exact=True)
@@ -331,7 +344,7 @@ def _rules(ctx, qp, CC, U, wires, fam, judge):
             continue
         if P.error is not None:
             ctx.ev("synth.matrix")
-            ctx.violation("synth.matrix", f"QubitUnitary rule {rule.name} raised {type(P.error).__name__}: {P.error} on a {fam} unitary",
+            _viol(ctx, "synth.matrix", f"QubitUnitary rule {rule.name} raised {type(P.error).__name__}: {P.error} on a {fam} unitary",
                           case={"U": U, "family": fam}, mech=f"raise:rule[{rule.name}]:{fam.split('-1e')[0]}")
             continue
         if P.work or P.info["has_mcm"]:
@@ -341,6 +354,6 @@ def _rules(ctx, qp, CC, U, wires, fam, judge):
             ncx = sum(1 for o in P.ops if len(o.wires) == 2)
             ctx.ev("synth.cnots")
             if ncx > 3:
-                ctx.violation("synth.cnots", f"QubitUnitary rule {rule.name} emitted {ncx} two-qubit gates on a {fam} unitary",
+                _viol(ctx, "synth.cnots", f"QubitUnitary rule {rule.name} emitted {ncx} two-qubit gates on a {fam} unitary",
                               case={"U": U, "family": fam}, mech=f"cnots:rule[{rule.name}]:{fam.split('-1e')[0]}")
         judge(f"rule[{rule.name}]", fam, U, P.ops, wires, exact=True)
